@@ -512,8 +512,9 @@ func runC08(s *kernel.Sim, enumerate bool) {
 		env.mux.ServeHTTP(rec, httptest.NewRequest(http.MethodPut, endpoint, bytes.NewReader(body)))
 	})
 	type during struct {
-		i int
-		v string
+		i     int
+		v     string
+		multi bool // finished after a second failure had hit this update (see multiFailure)
 	}
 	var seen []during
 	nProbe := 0
@@ -531,7 +532,11 @@ func runC08(s *kernel.Sim, enumerate bool) {
 			i := tp.Choose(len(c08Probes))
 			d := &during{i: i}
 			id := fmt.Sprintf("during-%d", nProbe)
-			s.Spawn(id, func() { d.v = env.probe(i, id); seen = append(seen, *d) })
+			s.Spawn(id, func() {
+				d.v = env.probe(i, id)
+				d.multi = len(fired) > 1 || faultInRecovery
+				seen = append(seen, *d)
+			})
 			s.FaultFired("probe_during_update")
 			continue
 		}
@@ -604,6 +609,11 @@ func runC08(s *kernel.Sim, enumerate bool) {
 		c08setEnv(env.dir)
 	}
 	for _, d := range seen {
+		if d.multi {
+			// the state a failed recovery leaves behind is outside the fault model
+			// (one failure per update), like R1/R2 above
+			continue
+		}
 		s.Rule("R4")
 		okv := d.v == vOld[d.i] || (vNewRef != nil && d.v == vNewRef[d.i])
 		if !okv {
